@@ -6,7 +6,7 @@
   `EG/Model/TextSrcPrelude.lean`, the `Point` / `Size` / `Rectangle` helpers are the regenerated functions of
   `EG/Generated/RectSrc.lean`). This file proves `<name>_src_eq_model` for the functions C15 rests on —
   `LineHeight::to_absolute`, `MonoTextStyle::{baseline_offset, line_height, measure_string}`,
-  `Text::{line_height, lines, draw, bounding_box}`, `update_min_max` — against `EG/Model/TextLayout.lean`, and restates
+  `Text::{line_height, lines, draw, bounding_box, translate}`, `update_min_max` — against `EG/Model/TextLayout.lean`, and restates
   the headline theorems of C15 over the generated functions (`src_*`). A semantic change of one of these Rust
   bodies changes the generated definition and breaks a theorem here.
 
@@ -284,6 +284,13 @@ theorem Text_bounding_box_src_eq_model (t : TextSrcPrelude.Text)
       (linesGo t.character_style.font.f t.toModel.style t.toModel.ts t.toModel.position (splitNL t.toModel.text)) with
   | none => rfl
   | some mm => obtain ⟨mn, mx⟩ := mm; exact with_corners_src_eq_model mn mx
+
+/-! ### `Transform::translate` -/
+
+/-- `Text::translate` moves the position and keeps everything else (the hand model's `Text.translate`). -/
+theorem Text_translate_src_eq_model (t : TextSrcPrelude.Text) (d : Pt) :
+    TextSrc.Text_Transform_translate t d = { t with position := t.position + d } ∧
+    (TextSrc.Text_Transform_translate t d).toModel = t.toModel.translate d := ⟨rfl, rfl⟩
 
 /-! ### the headline theorems of C15, about the regenerated functions -/
 
